@@ -1216,16 +1216,19 @@ func deepCases(quick bool) []deepCase {
 			if base > 300 || (quick && size == 256 && ind != 2 && ind != 4 && ind != 8) {
 				continue
 			}
+			if size == 256 && ind == 1 {
+				continue // 257 levels x 129-byte lines: very long texts, the 256 crossing is covered by indent 2..8
+			}
 			ds := []int{base}
 			if !quick {
-				ds = []int{base - 1, base, base + 1, base + 3}
+				ds = []int{base - 1, base, base + 1}
 			}
 			for _, d := range ds {
 				if d > 300 {
 					continue
 				}
 				pats := []int{(ind + d + sd) % 3}
-				if !quick {
+				if !quick && d == base {
 					pats = []int{0, 1, 2}
 				}
 				for _, pat := range pats {
